@@ -91,8 +91,11 @@ class Check(PropertyCheck):
         return {"MitmVerif/Gen/C25.lean": src}
 
     def setup(self, tier):
-        self.layout = D.code_layout()
+        # the oracle's notion of "record data in uncompressed form" comes from the RFC table in c25_dns, never from the
+        # tree under test (a tree whose _RDATA_LAYOUT differs must not move the oracle along with it)
+        self.layout = D.rfc_layout()
         self._last = None
+        self.known_selftest()
 
     # ------------------------------------------------------------------ generators
     def _label(self, rng, clean=False):
@@ -352,7 +355,7 @@ class Check(PropertyCheck):
                 obs = {"r": "exc:" + type(e).__name__}
         elif op == "plain":
             data, ctx = unhx(case["data_hex"]), unhx(case["ctx_hex"])
-            plain = D.rdata_plain(self.layout, case["ty"], data)
+            plain = D.rdata_plain(D.code_layout(), case["ty"], data)   # twin of the Lean predicate over the generated table
             buf = ctx + data + b"\xc0\x0c"
             try:
                 d = domain_names.expand_record_data(buf, len(ctx), len(ctx) + len(data), case["ty"]) \
@@ -381,7 +384,10 @@ class Check(PropertyCheck):
             if not (t <= U16 and cl <= U16 and D.canonical_name(D.b2t(unhx(n)))): return False
         for n, t, cl, ttl, d in case["an"] + case["ns"] + case["ar"]:
             if not (t <= U16 and cl <= U16 and ttl <= U32 and D.canonical_name(D.b2t(unhx(n)))): return False
-            if not D.rdata_plain(self.layout, t, unhx(d)): return False
+            # the only record data the property cannot ask to survive: a compression pointer in a name field (such data is
+            # not in uncompressed form; expanding it is the decoder's job). Data that merely does not match the layout of
+            # its type is well-formed "arbitrary record data".
+            if D.rdata_class(self.layout, t, unhx(d)) == "ptr": return False
         return True
 
     def oracle(self, case, obs):
@@ -406,20 +412,85 @@ class Check(PropertyCheck):
             elif obs.get("back") != obs["r"]: fails.append(f"reencode: decodes to {obs.get('back')}")
         return fails
 
-    def _records(self, rendered):
-        parts = rendered.split(" ")
-        for sec in parts[-3:]:
-            if sec == "-": continue
-            for r in sec.split(";"):
-                n, t, cl, ttl, d = r.split(":")
-                yield int(t), unhx(d)
+    @staticmethod
+    def _parse_rendered(rendered):
+        """'hdr qs an ns ar' -> (hdr, qs, [[(name, type, class, ttl, data)]])"""
+        hdr, qs, *secs = rendered.split(" ")
+        out = []
+        for sec in secs:
+            out.append([] if sec == "-" else [tuple(r.split(":")) for r in sec.split(";")])
+        return hdr, qs, out
+
+    def _only_fallback_data_differs(self, a, b):
+        """the two renderings are the same message except for the data of records whose (first) data is in the
+        'fallback' class of its type — and at least one such record differs"""
+        ha, qa, sa = self._parse_rendered(a); hb, qb, sb = self._parse_rendered(b)
+        if (ha, qa) != (hb, qb) or [len(x) for x in sa] != [len(x) for x in sb]: return False
+        differs = False
+        for xa, xb in zip(sa, sb):
+            for ra, rb in zip(xa, xb):
+                if ra[:4] != rb[:4]: return False
+                if ra[4] != rb[4]:
+                    if D.rdata_class(self.layout, int(ra[1]), unhx(ra[4])) != "fallback": return False
+                    differs = True
+        return differs
 
     def known(self, case, obs, failure):
-        """F-C25a: a record of a name-bearing type whose data did not match the layout of its type (heuristic fallback)"""
-        if case["op"] == "bytes" and failure.startswith("reencode:") and str(obs.get("r", "")).startswith("ok "):
-            if any(not D.rdata_plain(self.layout, t, d) for t, d in self._records(obs["r"])):
-                return "F-C25a"
+        """F-C25a: bytes case, failure 'reencode: decodes to ok ...', and first and second decode are the same message
+                   except for the data of records in the fallback class (data not matching the layout of its type)
+           F-C25b: msg case, failure 'roundtrip: decodes to ok ...', and constructed and decoded message are the same
+                   except for the data of records in the fallback class"""
+        if not isinstance(obs, dict): return None
+        if case["op"] == "bytes" and failure.startswith("reencode: decodes to ok ") and str(obs.get("r", "")).startswith("ok ") \
+                and str(obs.get("back", "")).startswith("ok "):
+            if self._only_fallback_data_differs(obs["r"][3:], obs["back"][3:]): return "F-C25a"
+        if case["op"] == "msg" and failure.startswith("roundtrip: decodes to ok ") and str(obs.get("back", "")).startswith("ok "):
+            if self._only_fallback_data_differs(obs["msg"], obs["back"][3:]): return "F-C25b"
         return None
+
+    def known_selftest(self):
+        """the classifiers fire for the recorded witnesses and for nothing next to them (independent of the tree under test:
+        observations are literals)"""
+        H = "1,0,0,0,0,1,1,0,0 61626364:33:1 "
+        r1 = H + "61626364:33:1:60:046162636400c02b00 - -"          # SRV data shorter than its fixed fields, after heuristics
+        r2 = H + "61626364:33:1:60:0461626364000000 - -"
+        wb = {"op": "bytes", "buf_hex": "00"}
+        wm = {"op": "msg"}
+        T = [
+            # F-C25a positive: the recorded witness
+            (wb, {"r": "ok " + r1, "packed": "00", "back": "ok " + r2}, "reencode: decodes to ok " + r2, "F-C25a"),
+            # same input class, other failure clause: the decoded message does not encode / second decode is an error
+            (wb, {"r": "ok " + r1, "packed": "err"}, "reencode: decoded message does not encode", None),
+            (wb, {"r": "ok " + r1, "packed": "00", "back": "err"}, "reencode: decodes to err", None),
+            # same input class, but a name changed as well
+            (wb, {"r": "ok " + r1, "packed": "00", "back": "ok " + r2.replace("61626364:33:1:60", "61626365:33:1:60")},
+             "reencode: decodes to ok x", None),
+            # neighbouring input: TXT (no layout) data changed; SRV data that matches its layout changed
+            (wb, {"r": "ok " + H + "61626364:16:1:60:02c00c - -", "packed": "00", "back": "ok " + H + "61626364:16:1:60:02c00d - -"},
+             "reencode: decodes to ok x", None),
+            (wb, {"r": "ok " + H + "61626364:33:1:60:00010002000301c000 - -", "packed": "00",
+                  "back": "ok " + H + "61626364:33:1:60:00010002000301c100 - -"}, "reencode: decodes to ok x", None),
+            # termination failure on a message of the class is not the finding
+            (wb, {"__timeout__": 3}, "termination: DNSMessage.unpack did not return within 3s", None),
+            # F-C25b positive: CNAME data 99 c0 0c constructed, decoded as 99 + expansion
+            (wm, {"msg": H.replace(":33:", ":5:") + "61626364:5:1:60:99c00c - -", "packed": "00",
+                  "back": "ok " + H.replace(":33:", ":5:") + "61626364:5:1:60:99046162636400 - -"}, "roundtrip: decodes to ok x", "F-C25b"),
+            # same class, message does not encode; neighbouring: opaque type changed; plain CNAME data changed
+            (wm, {"msg": H.replace(":33:", ":5:") + "61626364:5:1:60:99c00c - -", "packed": "err"},
+             "roundtrip: well-formed message does not encode", None),
+            (wm, {"msg": H + "61626364:16:1:60:99c00c - -", "packed": "00", "back": "ok " + H + "61626364:16:1:60:99046162636400 - -"},
+             "roundtrip: decodes to ok x", None),
+            (wm, {"msg": H.replace(":33:", ":5:") + "61626364:5:1:60:016100 - -", "packed": "00",
+                  "back": "ok " + H.replace(":33:", ":5:") + "61626364:5:1:60:016200 - -"}, "roundtrip: decodes to ok x", None),
+        ]
+        for case, obs, failure, want in T:
+            got = self.known(case, obs, failure)
+            assert got == want, f"known_selftest: {failure!r} on {obs} classified {got}, expected {want}"
+        # the input classes themselves
+        L = self.layout
+        assert D.rdata_class(L, 33, bytes.fromhex("c00cc02b00")) == "fallback" and D.rdata_class(L, 5, bytes.fromhex("99c00c")) == "fallback"
+        assert D.rdata_class(L, 15, bytes.fromhex("000ac00c")) == "ptr" and D.rdata_class(L, 16, bytes.fromhex("02c00c")) == "opaque"
+        assert D.rdata_class(L, 15, bytes.fromhex("c00c046d61696c00")) == "plain" and D.rdata_class(L, 5, bytes.fromhex("99c0")) == "plain"
 
     # ------------------------------------------------------------------ model tie
     def _obs_for(self, case):
